@@ -991,6 +991,34 @@ pub fn c16(tier: Tier) -> i32 {
                 }),
             }
         }
+        // the same tree named relatively to the process's working directory, and with a trailing slash: which files are analysed
+        // does not depend on how the directory is spelled (trees with a sub-directory only)
+        if tree.iter().any(|e| matches!(e, Entry::Dir { .. })) {
+            if let Ok(cwd) = std::env::current_dir() {
+                let ups = cwd.components().filter(|c| matches!(c, std::path::Component::Normal(_))).count();
+                let rel = format!("{}{}", "../".repeat(ups), root.to_string_lossy().trim_start_matches('/'));
+                let abs = run_analyze_dir(&root, &sel);
+                for spelled in [rel.clone(), format!("{}/", root.to_string_lossy()), format!("{}/", rel), format!("./{}", rel)] {
+                    states += 1;
+                    calls += 3;
+                    let got = run_analyze_dir(Path::new(&spelled), &sel);
+                    if got != abs {
+                        vs.push(Violation {
+                            site: "analyze_dir:result-depends-on-the-spelling-of-the-directory".into(),
+                            input: format!("tree {} named {:?}", describe(tree), spelled),
+                            expected: "the same result as for the absolute path".into(),
+                            observed: match (&got, &abs) {
+                                (Ok(g), Ok(a)) => diff_findings(g, a),
+                                _ => format!("{:?} vs {:?}", got.is_ok(), abs.is_ok()),
+                            },
+                            size: tree.iter().map(|e| e.count()).sum::<usize>() * 100,
+                            unit_test: String::new(),
+                            extra: json!({}),
+                        });
+                    }
+                }
+            }
+        }
         let _ = std::fs::remove_dir_all(&root);
         (vs, states, calls, outcomes)
     });
@@ -1564,6 +1592,52 @@ pub fn dir_equals_file(texts: &[(String, String)], sel_names: (&[&str], &[&str],
             None
         }
     });
-    let n = res.len() as u64;
-    (res.into_iter().flatten().collect(), n)
+    let mut n = res.len() as u64;
+    let mut out: Vec<Violation> = res.into_iter().flatten().collect();
+    // ... and all of them in ONE tree: at the top, in two sibling sub-directories and below one of them, under four listing
+    // orders (what a sub-directory reports must be added to what was collected before it, pattern by pattern)
+    if texts.len() > 1 {
+        let mut top: Vec<Entry> = Vec::new();
+        let (mut a, mut b, mut deep): (Vec<Entry>, Vec<Entry>, Vec<Entry>) = (Vec::new(), Vec::new(), Vec::new());
+        for (i, (_, text)) in texts.iter().enumerate().take(64) {
+            let f = file(&format!("T{:02}.sol", i), text.as_bytes());
+            match i % 4 {
+                0 => top.push(f),
+                1 => a.push(f),
+                2 => b.push(f),
+                _ => deep.push(f),
+            }
+        }
+        a.push(Entry::Dir { name: "deep".into(), children: deep });
+        top.insert(top.len() / 2, Entry::Dir { name: "a".into(), children: a });
+        top.push(Entry::Dir { name: "b".into(), children: b });
+        let root = worker_root("direq-all");
+        let _ = std::fs::remove_dir_all(&root);
+        materialise(&root, &top);
+        let s = sel();
+        let want = per_file_union(&top, &s);
+        for order in all_orders(&root, &top) {
+            n += 1;
+            solstat::verif_fs::set_order(order.clone());
+            let got = run_analyze_dir(&root, &s);
+            solstat::verif_fs::clear_order();
+            if got != want {
+                out.push(Violation {
+                    site: "analyze_dir:tree-differs-from-file-level".into(),
+                    input: format!("tree {} listing {:?}", describe(&top).chars().take(300).collect::<String>(), order.values().map(|v| v.len()).collect::<Vec<_>>()),
+                    expected: "the directory result equals the union of the per-file results".into(),
+                    observed: match (&got, &want) {
+                        (Ok(g), Ok(w)) => diff_findings(g, w).chars().take(600).collect(),
+                        _ => format!("{:?} vs {:?}", got.is_ok(), want.is_ok()),
+                    },
+                    size: 100_000,
+                    unit_test: String::new(),
+                    extra: json!({}),
+                });
+                break;
+            }
+        }
+        let _ = std::fs::remove_dir_all(&root);
+    }
+    (out, n)
 }
